@@ -183,6 +183,8 @@ def _to_coq(case, o):
         if not o['pure'] and case['op'] not in ('add_inplace', 'mult_inplace'):
             item['pyviolation'] = 'operation modified its arguments'
         op = case['op']
+        if op == 'normalize' and all(x == 'None' for x in xs):
+            return item          # normalising the zero vector is undefined (0/0) in any base
         for i, z in enumerate(o['z']):
             if math.isnan(z):
                 item['pyviolation'] = 'nan in ops output'
